@@ -234,16 +234,25 @@ pub fn replay(args: &[String]) {
             let log = Arc::new(Mutex::new(vec![]));
             let t = Scripted { answers: Arc::new(answers.clone()), log: log.clone() };
             let flavour = if rep % 2 == 0 { "sync" } else { "async" };
+            // the resolver stack is the one Context assembles from the settings (not a copy of it); the scripted
+            // transport answers at the bottom through the generic resolvers' transport override (hook H2)
+            let overlay = json!({"core": {"allow_redirects": allow_redirects,
+                "allowed_network_hosts": if v["restricted"].as_bool().unwrap() { json!(v["allow"].as_array().unwrap().iter().map(pattern_str).collect::<Vec<_>>()) } else { Value::Null }}});
+            let _ = &allow;
+            let t2 = t.clone();
+            c2pa::verif_hooks::set_transport(Some(Arc::new(move |req: Request<Vec<u8>>| {
+                t2.answer(req).map(|r| r.map(|mut b| { let mut v = vec![]; let _ = b.read_to_end(&mut v); v }))
+            })));
             let r = catch(std::panic::AssertUnwindSafe(|| {
                 let req = match mk_req() { Ok(r) => r, Err(e) => return format!("badRequest:{e}") };
+                let c = match try_settings(&overlay).and_then(|s| c2pa::Context::new().with_settings(s)) { Ok(c) => c, Err(e) => return format!("settings:{}", err_kind(&e)) };
                 if flavour == "sync" {
-                    let stack = c2pa::verif_hooks::policy_stack_sync(t.clone(), allow.clone(), allow_redirects);
-                    result_class(&stack.http_resolve(req))
+                    result_class(&c.resolver().http_resolve(req))
                 } else {
-                    let stack = c2pa::verif_hooks::policy_stack_async(t.clone(), allow.clone(), allow_redirects);
-                    result_class(&rt.block_on(stack.http_resolve_async(req)))
+                    result_class(&rt.block_on(c.resolver_async().http_resolve_async(req)))
                 }
             }));
+            c2pa::verif_hooks::set_transport(None);
             let recorded = log.lock().unwrap().clone();
             runs.push(json!({"flavour": flavour, "first": u0, "locations": answers.iter().map(|a| a.1.clone()).collect::<Vec<_>>(),
                              "patterns": v["allow"].as_array().unwrap().iter().map(pattern_str).collect::<Vec<_>>(),
